@@ -28,8 +28,9 @@ namespace EMA
 
 theorem new_ok {P n : Nat} (v : K) (hn0 : 0 < n) (hn : n ≤ P - 1) :
     EMA.new P n v = .ok { alpha := ((2 : Nat) : K) / ((n + 1 : Nat) : K), value := v } := by
+  have hnP : n ≠ P := by omega
   have h1 : n + 1 ≤ P := by omega
-  simp [EMA.new, Nat.pos_iff_ne_zero.mp hn0, chkAdd, h1]
+  simp [EMA.new, Nat.pos_iff_ne_zero.mp hn0, hnP, chkAdd, h1]
 
 /-- one step of the model is one step of the recurrence `e ← (x − e)·α + e` -/
 theorem next_value (s : EMA K) (x : K) :
@@ -73,11 +74,12 @@ theorem WSMA.new_ok {P n : Nat} (v : K) (hn0 : 0 < n) (hn : n ≤ P / 2) :
   have h3 : 1 ≤ n * 2 := by omega
   have h4 : n * 2 - 1 + 1 ≤ P := by omega
   have h5 : n * 2 - 1 ≠ 0 := by omega
+  have h6 : n * 2 - 1 ≠ P := by omega
   have hnK : (n : K) ≠ 0 := by exact_mod_cast Nat.pos_iff_ne_zero.mp hn0
   have e : ((2 : Nat) : K) / ((n * 2 - 1 + 1 : Nat) : K) = 1 / (n : K) := by
     have : n * 2 - 1 + 1 = n * 2 := by omega
     rw [this]; push_cast; field_simp
-  simp [WSMA.new, h1, Nat.pos_iff_ne_zero.mp hn0, chkMul, h2, chkSub, h3, EMA.new, h5, chkAdd, h4, Res.bind]
+  simp [WSMA.new, h1, Nat.pos_iff_ne_zero.mp hn0, chkMul, h2, chkSub, h3, EMA.new, h5, h6, chkAdd, h4, Res.bind]
   field_simp
 
 /-! ### compositions: DMA = EMA∘EMA, TMA = EMA∘EMA∘EMA, DEMA = 2·EMA − DMA, TEMA = 3(EMA − DMA) + TMA -/
